@@ -109,7 +109,7 @@ type Mod struct {
 	Kind string `json:"kind"` // "", refine-*, augment, when, if-feature, status
 }
 
-var mods = []string{"", "refine-default", "refine-mandatory", "refine-config", "refine-presence", "refine-description", "refine-min", "refine-must", "refine-nested", "augment", "when", "if-feature", "if-feature-off", "status"}
+var mods = []string{"", "augment-when", "refine-default", "refine-mandatory", "refine-config", "refine-presence", "refine-description", "refine-min", "refine-must", "refine-nested", "augment", "when", "if-feature", "if-feature-off", "status"}
 
 type Structure struct {
 	Body   []string `json:"body"`   // names from the menu
@@ -249,7 +249,7 @@ func build(s Structure) (r rendered, applicable bool) {
 				}
 			}
 			n.Props = append(props, stmt)
-		case m == "augment":
+		case m == "augment" || m == "augment-when":
 			tgt := ""
 			for _, t := range []string{"c", "li", "ch"} {
 				if find(body, t) != nil {
@@ -264,6 +264,22 @@ func build(s Structure) (r rendered, applicable bool) {
 			var addN *N = add
 			if find(body, tgt).Kind == "choice" {
 				addN = &N{Kind: "case", Name: "addedcase", Kids: []*N{add}}
+			}
+			if m == "augment-when" {
+				// the when of an augment is evaluated on the augment's target: every node it
+				// introduces carries it with run-as-parent (RFC 6020 7.15, and the property's
+				// "when ... written on a uses or augment apply to every node it introduces")
+				usesExtra += fmt.Sprintf(" augment %s { when \"k = 'on'\"; %s }", tgt, addN.render(""))
+				in := addN.clone()
+				in.Props = append(in.Props, `when "k = 'on'";`)
+				n := find(inl, tgt)
+				n.Kids = append(n.Kids, in)
+				if addN.Kind == "case" {
+					r.whenPaths = append(r.whenPaths, "{choice "+addN.Name+"}")
+				} else {
+					r.whenPaths = append(r.whenPaths, addN.Name)
+				}
+				break
 			}
 			usesExtra += fmt.Sprintf(" augment %s { %s }", tgt, addN.render(""))
 			n := find(inl, tgt)
@@ -478,7 +494,7 @@ func check(s Structure) (vs []engine.Violation, outcome string) {
 		for _, p := range r.whenPaths {
 			found := false
 			for _, line := range strings.Split(du, "\n") {
-				if strings.HasSuffix(strings.SplitN(line, " ", 2)[0], "/"+p) && strings.Contains(line, `parent=true`) {
+				if strings.HasSuffix(strings.SplitN(line, " args=", 2)[0], "/"+p) && strings.Contains(line, `parent=true`) {
 					found = true
 				}
 			}
@@ -603,7 +619,7 @@ func run(c *engine.Ctx) {
 					}
 					structs = append(structs, Structure{Body: []string{b}, Nested: nested, Def: d, Site: site, Mods: []string{""}, Clash: true})
 					if nested {
-						for _, m := range []string{"", "augment", "when", "if-feature", "refine-default"} {
+						for _, m := range []string{"", "augment", "augment-when", "when", "if-feature", "refine-default"} {
 							structs = append(structs, Structure{Body: []string{b}, Nested: true, Deep: true, Def: d, Site: site, Mods: []string{m}})
 						}
 					}
